@@ -343,7 +343,9 @@ def paramLoop (upper : Text → Text) (pi : Nat) : List (Nat × Node) → List (
   | [], acc => acc.reverse
   | (j, k) :: rest, acc =>
     match k with
-    | .grp .IdentifierList sub => (getIdentifiers upper sub).map fun (i, n) => ([pi, j, i], n)
+    | .grp .IdentifierList sub =>
+      -- `result.extend(token.get_identifiers())` and keep scanning
+      paramLoop upper pi rest (((getIdentifiers upper sub).map fun (i, n) => ([pi, j, i], n)).reverse ++ acc)
     | _ =>
       if imt upper k [.Function, .Identifier, .TypedLiteral] [] (.hier [T.Literal]) then
         paramLoop upper pi rest (([pi, j], k) :: acc)
